@@ -5,6 +5,31 @@ use std::process::{Command, Stdio};
 
 const REPLAY_SHARD: usize = 9999;
 
+/// Counting allocator: per-thread live heap bytes (used by the C27 check; negligible cost elsewhere).
+struct Counting;
+unsafe impl std::alloc::GlobalAlloc for Counting {
+    unsafe fn alloc(&self, l: std::alloc::Layout) -> *mut u8 {
+        let p = std::alloc::System.alloc(l);
+        if !p.is_null() {
+            let _ = props::c27::LIVE_BYTES.try_with(|c| c.set(c.get() + l.size() as isize));
+        }
+        p
+    }
+    unsafe fn dealloc(&self, p: *mut u8, l: std::alloc::Layout) {
+        let _ = props::c27::LIVE_BYTES.try_with(|c| c.set(c.get() - l.size() as isize));
+        std::alloc::System.dealloc(p, l)
+    }
+    unsafe fn realloc(&self, p: *mut u8, l: std::alloc::Layout, new: usize) -> *mut u8 {
+        let q = std::alloc::System.realloc(p, l, new);
+        if !q.is_null() {
+            let _ = props::c27::LIVE_BYTES.try_with(|c| c.set(c.get() + new as isize - l.size() as isize));
+        }
+        q
+    }
+}
+#[global_allocator]
+static ALLOC: Counting = Counting;
+
 fn tier_of(s: &str) -> Tier {
     match s {
         "quick" => Tier::Quick,
@@ -208,8 +233,10 @@ macro_rules! dispatch {
             "C14" => $f(&props::c14::C14, $($args),*),
             "C15" => $f(&props::c14::C15, $($args),*),
             "C16" => $f(&props::c16::C16, $($args),*),
+            "C17" => $f(&props::c17::C17, $($args),*),
             "C25" => $f(&props::c25::C25, $($args),*),
             "C26" => $f(&props::c26::C26, $($args),*),
+            "C27" => $f(&props::c27::C27, $($args),*),
             "C28" => $f(&props::c28::C28, $($args),*),
             "C11" => $f(&props::c11::C11, $($args),*),
             "C12" => $f(&props::c12::C12, $($args),*),
